@@ -225,7 +225,35 @@ class C06(Prop):
     assumptions = ["wf_lib (no duplicate keys); query paths are non-empty and contain no '.'"]
 
 
+class C17(Prop):
+    id = "C17"
+    coq_targets = ["Properties/C17.vo", "Corr/C17.vo"]
+    props_file = "Properties/C17.v"
+    harness_cmd = "c17"
+    n = {"quick": 500, "thorough": 10000}
+    search_seeds = 2
+    bits = {4: "writing a library and reading it back (value level or YAML text) does not yield an equal library",
+            8: "a document was accepted whose re-serialisation does not load back to the same library"}
+    rule = ("shipped libraries + generated libraries with every field kind, argument type, required-with-message, observes, deprecated "
+            "with replace patterns, structs, roblox classes, wildcard / numeric-looking / dotted keys and YAML-hostile strings "
+            "(true false null ~ 1e3 0x1 leading/trailing space `a: b` # * & multi-line non-ASCII empty `- a` yes no quotes); for each: "
+            "to_value vs ser_lib, from_value vs de_lib, to_string -> from_str equality; plus 1-3 random mutations of the serialised value "
+            "(drop / retype / add keys) through from_value vs de_lib and accept => re-serialise => reload; plus `selene upgrade-std` on "
+            "generated v1 TOML; non-trivial = at least one global; distinct = distinct descriptions")
+    trusted_base = [
+        "modelled: the derive semantics actually used (defaults, skip_serializing_if, deny_unknown_fields, flatten, untagged enum tried in order, TrueOnly, visitors) at serde's value level (Std/Serde.v)",
+        "not modelled: serde_yaml's and toml's text layers (sampled with hostile strings), serde's derive machinery itself",
+        "v1 -> v2 field-tree flattening (v1_upgrade.rs) enters the theorem as an arbitrary function; it is exercised through the CLI",
+    ]
+    assumptions = ["wf_slib: no LuaVersion::Unknown carrying a known version name"]
+    needs_bin = True
+
+    def extra(self, ctx):
+        from . import c17cli
+        return c17cli.run(ctx)
+
+
 from .c19 import C19  # noqa: E402
 from .c16 import C16  # noqa: E402
 
-ALL = {c.id: c for c in [C01, C02, C03, C06, C07, C08, C09, C10, C13, C14, C15, C16, C19]}
+ALL = {c.id: c for c in [C01, C02, C03, C06, C07, C08, C09, C10, C13, C14, C15, C16, C17, C19]}
